@@ -186,6 +186,7 @@ func rulesC14(w *World, r *Report) {
 	r.floor("C14.R4 decode entry points", len(eps), 7)
 	// R5 nothing blocks; locks survive a recovered panic
 	w.ruleDecodeNeverBlocks(r, "C14.R5 the decode path never blocks", reach)
+	w.ruleNoValueWalkingFormat(r, "C14.R6 decoded values are not walked by a formatter", reach)
 	// census (role)
 	var census []string
 	counts := map[string]int{}
